@@ -38,38 +38,36 @@ class ConstantValue(Node):
         super().__init__(name, position)
 
     def replace_chars_with_lingo_constants(self, n: str) -> str:
-        for k in get_keys(REPLACEMENT_CONSTANTS):
-            v: str = REPLACEMENT_CONSTANTS[k]
-            idx = 1
-            l: int = (len(n) - 1)
-            pos: int = n.find(v, idx, l)
-            while pos > 0:
-                start = n[0:pos]
-                e0: int = pos + len(v)
-                el: int = len(n)
-                end = n[e0:el]
-    
-                idx = len(start)
-                if not start.endswith('& "'):
-                    start = start + '" & '
-                    idx = idx + 4
-                else:
-                    idx = idx - 1
-                    start = start[0:idx]
-    
-                idx = idx + len(k)
-                if end != '"':
-                    end = ' & "' + end
-                    idx = idx + 4
-                else:
-                    end = ''
-    
-                n = start + k + end
-                    
-                l = (len(n) -1)
-                pos = n.find(v, idx, l)
-        
-        return n
+        # One left to right scan over the escaped text between the quotes:
+        # an escape sequence is never split, and the characters that Lingo
+        # has a name for become constants joined with '&'
+        body: str = n[1:len(n) - 1]
+        pieces: List[str] = []
+        text: str = ''
+        i: int = 0
+        while i < len(body):
+            name: str = ''
+            step: int = 1
+            if body[i] == '"':
+                name = 'QUOTE'
+            elif body[i] == '\\':
+                step = 2
+                for k in get_keys(REPLACEMENT_CONSTANTS):
+                    v: str = REPLACEMENT_CONSTANTS[k]
+                    if v != '"' and body.startswith(v, i):
+                        name = k
+                        step = len(v)
+            if name == '':
+                text = text + body[i:i + step]
+            else:
+                if text != '':
+                    pieces.append('"' + text + '"')
+                    text = ''
+                pieces.append(name)
+            i = i + step
+        if text != '' or len(pieces) == 0:
+            pieces.append('"' + text + '"')
+        return ' & '.join(pieces)
 
     def generate_lingo(self, indentation: int) -> str:
         n: str = self.name
